@@ -369,11 +369,17 @@ def run(ctx):
     jump = {"+1": 0, "2..29": 0, "30..59": 0, ">=60": 0}
     for r in rows:
         prev = r["cfg"]["head0"]
+        away = False
         for s in r["script"]:
             k = s["op"] + (":" + s["how"] if s.get("how") else "") + (":errall" if s.get("errall") else "") + (":errtx" if s.get("errtx") else "") + \
                 (":pollfail" if s.get("pollfail") else "") + (":bump" if s.get("bump") else "") + (":headerr" if s.get("headerr") else "") + \
                 (":rcpterr" if s.get("rcpterr") else "") + (":bbherr" if s.get("bbherr") else "") + (":extras" if s.get("extras") else "") + \
-                (":" + s["kill"] if s.get("kill") else "") + (":gsfail-" + s["gsfail"] if s.get("gsfail") else "") + (":upg" if s.get("upg") else "")
+                (":" + s["kill"] if s.get("kill") else "") + (":gsfail-" + s["gsfail"] if s.get("gsfail") else "") + (":upg" if s.get("upg") else "") + \
+                (":reader-away" if r["cfg"].get("slowreader") and s["op"] in ("head", "stall", "log", "restart") and away else "")
+            if s["op"] == "pause-reader":
+                away = True
+            elif s["op"] == "resume-reader":
+                away = False
             ophist[k] = ophist.get(k, 0) + 1
             if s["op"] == "head" and s.get("to", 0) > prev:
                 d = s["to"] - prev
@@ -386,7 +392,9 @@ def run(ctx):
     ctx.rule = ("histories = fixed corpus (witnesses of the two liveness defects, boundary jumps, orphan/re-mine/fail, re-observation filters) + scripts generated "
                 "from the seed (logs incl. two per tx / repeated / re-announced after a move, heads +1 / small / to depth and window boundaries +-1 / jumps of 30..330, "
                 "stalls, receipts gone / moved / failed / restored, transient receipt errors for all or one tx, failed polls, re-observation requests with "
-                "head/receipt/block-time errors, chain advancing between the two reads, foreign-contract / other-topic / never-announced logs in the receipt); "
+                "head/receipt/block-time errors, chain advancing between the two reads, foreign-contract / other-topic / never-announced logs in the receipt; "
+                "in about 6% of the generated histories and in six fixed ones the message channel is unbuffered as in node.go and the reader is away while heads are "
+                "processed: hand-over parked in the send, reader back later, Run made to return meanwhile by a dropped connection); "
                 "distinct by (config, script), non-trivial = at least one receipt lookup or forwarded message")
     ctx.samples = [{"cfg": r["cfg"], "script": r["script"][:6], "first_groups": r["groups"][:3]} for r in rows[:2]]
 
@@ -421,6 +429,18 @@ def run(ctx):
                 exps[key] = [0, text, r["cfg"]["name"]]
             exps[key][0] += 1
     ctx.cov["experimental_monitor_classes"] = {k: {"occurrences": v[0], "first": v[1][:400], "history": v[2]} for k, v in sorted(exps.items())}
+    # hand-over under back-pressure: unbuffered message channel (as lockC in node.go), the harness's reader plays the busy processor
+    slow = [r for r in rows if r["cfg"].get("slowreader")]
+    ctx.cov["hand_over_under_back_pressure"] = {
+        "histories_with_unbuffered_channel_and_scripted_reader": len(slow),
+        "of_which_generated": sum(1 for r in slow if r["cfg"]["name"].startswith("gen-")),
+        "hand_overs_parked_in_the_send (scan open, pendingMu held, reader away)": stats.get("hand_overs_parked", 0),
+        "restarts_of_Run_while_a_hand_over_was_parked": stats.get("restarts_while_parked", 0),
+        "hand_overs_written_off (decided by the watcher, taken by nobody)": stats.get("hand_overs_written_off", 0),
+        "judged_by": "Go monitors (exactly once, justification by the receipt lookup of the scan that decided, lost-in-hand-over) and the Coq model "
+                     "(the steps from the head that parks to the step that ends the hand-over are one group: the model has no processor, a parked send "
+                     "is the same model step as an immediate one); histories in which Run returned while a hand-over was parked are judged by the monitors only",
+    }
     ctx.cov["restarts_of_Run"] = stats.get("restarts", 0)
     ctx.cov["histories_with_restarts"] = sum(1 for r in rows if (r.get("stats") or {}).get("restarts"))
     ctx.cov["monitor_classes"] = {k: v[0] for k, v in seen.items()}
@@ -470,7 +490,10 @@ def run(ctx):
                             "first lastBlock %s" % prows[i]["first"], concrete=False, replay=prows[i])
             ctx.cov["poller_mismatches"] = len(pbad)
     # ---- model vs implementation, history by history, inside Coq
-    good = [r for r in rows if not r.get("harness")]
+    # Run returning while a goroutine of it is still parked in the send, and that goroutine finishing its scan next to the re-entered
+    # Run, is outside the model (goroutines of a returned Run are not interleaved with the new ones): monitors only
+    good = [r for r in rows if not r.get("harness") and not (r.get("stats") or {}).get("restarts_while_parked")]
+    ctx.cov["histories_judged_by_monitors_only (Run returned while a hand-over was parked)"] = sum(1 for r in rows if (r.get("stats") or {}).get("restarts_while_parked"))
     okdef = "Definition ok (c : cfg * option Z * list ggroup) : bool := let '(w, cur0, gs) := c in check_ghistory w cur0 gs."
     bad = core.run_cases(ctx, "cases_C10", good, GHDR, "cfg * option Z * list ggroup", gcase, okdef,
                          weight=lambda r: sum(len(g["ops"]) + len(g["pend"]) for g in r["groups"]))
@@ -488,6 +511,7 @@ def run(ctx):
         "the log subscription's address/topic filter is applied by the node (the harness checks that the real subscription request names the core contract and the LogMessagePublished topic and applies it like a node would)",
         "restarts of Run (errC -> the supervisor re-enters Run on the same Watcher value) are part of the model (model/EvmGuardianSet.v) and of the histories; goroutines of a returned Run that are still finishing when Run is re-entered are not interleaved with the new ones (the supervisor backs off >= 250 ms); a failing block-time lookup on the log path ends Run before the log is recorded: open known finding liveness:log-lost-on-blocktime-error",
         "the state `w.pending non-empty and block poller off` is observed as: not one eth_getBlockByNumber request for 5 s at a 1 ms poll interval while messages are pending and no insertion is in flight (monitor liveness:pending-with-poller-off)",
+        "hand-over to the processor: in the hand-over histories the message channel is unbuffered (as lockC in node/cmd/guardiand/node.go) and a scripted reader stands for the processor; 'the moment of forwarding' of a parked hand-over is the moment the watcher decided (its receipt lookup in the scan), not the moment the reader took the message; a hand-over is written off 6 s after the reader is back and Run is up again",
         "the head subscription delivers what the poller publishes in order (go-ethereum event.Feed); the watcher's own 'processing new header' / 'processed new header' log lines are the trace of head processing (a rewording shows up as rendezvous timeouts)",
         "receipts whose JSON does not unmarshal (non-nil receipt together with an error) are not generated",
         "logs with an empty topic list / a receipt without block number inside a re-observed receipt make the real code panic (Topics[0], BlockNumber.Uint64()); modelled as explicit Panic outcomes, exercised on the real MessageEventsForTransaction / ParseLogMessagePublished under recover (extension X8) and, as an experiment in a child process, on the real Run (the process ends): robustness remark, needs a node that serves a log the core contract cannot emit",
